@@ -669,7 +669,7 @@ inductive FitFractionOutcome (c : Converter Rat) (q : SQuantity Rat) (unit : Uni
   | declined : FitFractionOutcome c q unit target (q, .ok false)
   | fitted (q' : SQuantity Rat) (nu : Unit Rat) (hr : Restated c q unit q' nu)
       (hlist : ∀ s, target = some s → nu ∈ ((c.best unit.pq).conversions s).unitsOf)
-      (hnone : target = none → q'.unit = q.unit) :
+      (hnone : target = none → q'.unit = q.unit ∧ nu = unit) :
       FitFractionOutcome c q unit target (q', .ok true)
 
 theorem fitFractionWith_spec {c : Converter Rat} (hc : c.Sound) (q : SQuantity Rat) (unit : Unit Rat)
@@ -706,7 +706,7 @@ theorem fitFraction_spec {c : Converter Rat} (hc : c.Sound) (q : SQuantity Rat) 
     cases hb : (tryFraction c q).2 with
     | false => rw [tryFraction_false hb]; exact .declined
     | true =>
-      refine .fitted _ unit ⟨hu, ?_, rfl, ?_⟩ (by intro s hs; cases hs) (fun _ => tryFraction_unit c q)
+      refine .fitted _ unit ⟨hu, ?_, rfl, ?_⟩ (by intro s hs; cases hs) (fun _ => ⟨tryFraction_unit c q, rfl⟩)
       · rw [unitInfo_congr c (tryFraction_unit c q)]; exact hinfo
       · rw [tryFraction_parts]
   | some system =>
@@ -715,5 +715,192 @@ theorem fitFraction_spec {c : Converter Rat} (hc : c.Sound) (q : SQuantity Rat) 
     | text t => exact .failed t hv rfl
     | number n => exact fitFractionWith_spec hc q unit hu system n.value (by simp [hv, Value.parts])
     | range s e => exact fitFractionWith_spec hc q unit hu system s.value (by simp [hv, Value.parts])
+
+end Cook
+
+namespace Cook
+open Arith
+
+/-! ### `ScaledQuantity::convert` -/
+
+theorem convertToBest_error_sound {c : Converter Rat} (hc : c.Sound) {value : ConvertValue Rat}
+    {u : Unit Rat} {system : System} {e : ConvErr} (h : c.convertToBest value u system = .error e) :
+    ((c.best u.pq).conversions system).entries = [] ∧ e = .bestUnitNotFound u.pq u.system := by
+  by_cases hne : ((c.best u.pq).conversions system).entries = []
+  · rw [convertToBest_empty c value u system hne] at h
+    simp only [Except.error.injEq] at h
+    exact ⟨hne, h.symm⟩
+  · obtain ⟨r, hr⟩ := convertToBest_ok hc value u system hne
+    rw [hr] at h; cases h
+
+theorem convertToUnit_error_sound {value : ConvertValue Rat} {u t : Unit Rat} {e : ConvErr}
+    (h : convertToUnit value u t = .error e) : u.pq ≠ t.pq ∧ e = .mixedQuantities u.pq t.pq := by
+  by_cases hq : u.pq = t.pq
+  · unfold convertToUnit at h
+    simp only [hq, ne_eq, not_true_eq_false, if_false] at h
+    obtain ⟨v', hv⟩ := convertValue_ok value u t hq
+    rw [hv] at h; cases h
+  · rw [convertToUnit_mixed value u t hq] at h
+    simp only [Except.error.injEq] at h
+    exact ⟨hq, h.symm⟩
+
+/-- why a quantity conversion fails -/
+inductive ConvertFailure (c : Converter Rat) (q : SQuantity Rat) (to : ConvertTo Rat) : ConvErr → Prop where
+  | noUnit (h : q.unit = none) : ConvertFailure c q to .noUnit
+  | unknownUnit (k : Str) (h : q.unit = some k) (hf : c.findUnit k = none) :
+      ConvertFailure c q to (.unknownUnit k)
+  | textValue (u : Unit Rat) (t : Str) (hu : unitInfo c q = some u) (hv : q.value = .text t) :
+      ConvertFailure c q to (.textValue t)
+  | unknownTarget (u : Unit Rat) (k : Str) (hu : unitInfo c q = some u) (hto : to = .unit (.key k))
+      (hf : c.findUnit k = none) : ConvertFailure c q to (.unknownUnit k)
+  | mixed (u t : Unit Rat) (tu : ConvertUnit Rat) (hu : unitInfo c q = some u) (hto : to = .unit tu)
+      (ht : c.getUnit tu = .ok t) (hq : u.pq ≠ t.pq) : ConvertFailure c q to (.mixedQuantities u.pq t.pq)
+  | noBest (u : Unit Rat) (s : System) (hu : unitInfo c q = some u)
+      (hs : to = .best s ∨ (to = .sameSystem ∧ s = u.system.getD c.defaultSystem))
+      (he : ((c.best u.pq).conversions s).entries = []) :
+      ConvertFailure c q to (.bestUnitNotFound u.pq u.system)
+
+/-- the two ways `convert` can end for a sound converter: an error with the quantity untouched, or
+    the same amounts restated in a unit of the same physical quantity -/
+inductive ConvertOutcome (c : Converter Rat) (q : SQuantity Rat) (to : ConvertTo Rat) :
+    SQuantity Rat × Except ConvErr _root_.Unit → Prop where
+  | failed (e : ConvErr) (he : ConvertFailure c q to e) : ConvertOutcome c q to (q, .error e)
+  | converted (q' : SQuantity Rat) (u nu : Unit Rat) (hu : unitInfo c q = some u)
+      (hr : Restated c q u q' nu)
+      (hbest : ∀ s, to = .best s → nu ∈ ((c.best u.pq).conversions s).unitsOf)
+      (hsame : to = .sameSystem →
+        nu ∈ ((c.best u.pq).conversions (u.system.getD c.defaultSystem)).unitsOf)
+      (hkey : ∀ tu, to = .unit tu → c.getUnit tu = .ok nu) :
+      ConvertOutcome c q to (q', .ok ())
+
+theorem convert_error_sound {c : Converter Rat} (hc : c.Sound) {value : ConvertValue Rat}
+    {u : Unit Rat} {to : ConvertTo Rat} {e : ConvErr} (q : SQuantity Rat) (hu : unitInfo c q = some u)
+    (h : c.convert value (.unit u) to = .error e) : ConvertFailure c q to e := by
+  unfold Converter.convert at h
+  simp only [getUnit_unit] at h
+  cases to with
+  | sameSystem =>
+    simp only at h
+    have := convertToBest_error_sound hc h
+    rw [this.2]; exact .noBest u _ hu (Or.inr ⟨rfl, rfl⟩) this.1
+  | best s =>
+    simp only at h
+    have := convertToBest_error_sound hc h
+    rw [this.2]; exact .noBest u s hu (Or.inl rfl) this.1
+  | unit target =>
+    simp only at h
+    split at h
+    · rename_i e' he'
+      simp only [Except.error.injEq] at h; subst h
+      cases target with
+      | unit x => simp [Converter.getUnit] at he'
+      | key k =>
+        simp only [Converter.getUnit] at he'
+        split at he'
+        · cases he'
+        · rename_i hf
+          simp only [Except.error.injEq] at he'; subst he'
+          exact .unknownTarget u k hu rfl hf
+    · rename_i t ht
+      split at h
+      · rename_i e' he'
+        simp only [Except.error.injEq] at h; subst h
+        have := convertToUnit_error_sound he'
+        rw [this.2]; exact .mixed u t target hu rfl ht this.1
+      · cases h
+
+theorem toValue_not_text (v : ConvertValue Rat) (t : Str) : v.toValue ≠ .text t := by
+  cases v <;> simp [ConvertValue.toValue]
+
+theorem convertImpl_spec {c : Converter Rat} (hc : c.Sound) (q : SQuantity Rat) (to : ConvertTo Rat)
+    (hto : ∀ x, to = .unit (.unit x) → x ∈ c.allUnits) :
+    ConvertOutcome c q to (convertImpl c q to) := by
+  unfold convertImpl
+  cases hqu : q.unit with
+  | none => exact .failed _ (.noUnit hqu)
+  | some utext =>
+    simp only
+    cases hf : c.findUnit utext with
+    | none => exact .failed _ (.unknownUnit utext hqu hf)
+    | some u =>
+      simp only
+      have hu : unitInfo c q = some u := by simp [unitInfo, hqu, hf]
+      have hum := findUnit_mem hf
+      cases hval : ConvertValue.ofValue q.value with
+      | error e =>
+        obtain ⟨t, ht, he⟩ := ofValue_error hval
+        rw [he]; exact .failed _ (.textValue u t hu ht)
+      | ok value =>
+        simp only
+        cases hconv : c.convert value (.unit u) to with
+        | error e => exact .failed _ (convert_error_sound hc q hu hconv)
+        | ok r =>
+          obtain ⟨v', t⟩ := r
+          simp only
+          have hs := convert_spec hc hum hto hconv
+          obtain ⟨htm, htpq, hamt, hbest, hsame⟩ := hs
+          cases hsym : t.symbol? with
+          | none => have := hc.symbol t htm; rw [hsym] at this; cases this
+          | some sym =>
+            simp only
+            -- the quantity after the assignment `*self = Quantity::new(..)`
+            have hq1 : Restated c q u ⟨v'.toValue, some sym⟩ t := by
+              refine ⟨htm, unitInfo_symbol hc htm (by simp [hsym]) rfl, htpq, ?_⟩
+              simp only [toValue_parts]
+              rw [hamt, ofValue_parts hval]
+            have hkey : ∀ tu, to = .unit tu → c.getUnit tu = .ok t := by
+              intro tu htu
+              subst htu
+              unfold Converter.convert at hconv
+              simp only [getUnit_unit] at hconv
+              split at hconv
+              · cases hconv
+              · rename_i t' ht'
+                split at hconv
+                · cases hconv
+                · simp only [Except.ok.injEq, Prod.mk.injEq] at hconv
+                  rw [← hconv.2]; exact ht'
+            cases to with
+            | unit tu =>
+              simp only
+              refine .converted _ u t hu (hq1.trans ⟨htm, ?_, rfl, ?_⟩) (by intro s hs; cases hs)
+                (by intro hs; cases hs) hkey
+              · rw [unitInfo_congr c (tryFraction_unit c _)]; exact hq1.info
+              · rw [tryFraction_parts]
+            | best system =>
+              simp only
+              have hff := fitFraction_spec hc ⟨v'.toValue, some sym⟩ t hq1.info (some system)
+              generalize fitFraction c ⟨v'.toValue, some sym⟩ t (some system) = r at hff
+              cases hff with
+              | failed tx hv _ => exact absurd hv (toValue_not_text _ _)
+              | declined =>
+                exact .converted _ u t hu hq1 (by intro s hs; cases hs; exact hbest _ rfl)
+                  (by intro hs; cases hs) hkey
+              | fitted q' nu hr hlist hnone =>
+                refine .converted _ u nu hu (hq1.trans hr) ?_ (by intro hs; cases hs)
+                  (by intro tu htu; cases htu)
+                intro s hs; cases hs
+                rw [← htpq]; exact hlist _ rfl
+            | sameSystem =>
+              simp only
+              have hff := fitFraction_spec hc ⟨v'.toValue, some sym⟩ t hq1.info u.system
+              generalize fitFraction c ⟨v'.toValue, some sym⟩ t u.system = r at hff
+              cases hff with
+              | failed tx hv _ => exact absurd hv (toValue_not_text _ _)
+              | declined =>
+                exact .converted _ u t hu hq1 (by intro s hs; cases hs) (fun _ => hsame rfl) hkey
+              | fitted q' nu hr hlist hnone =>
+                refine .converted _ u nu hu (hq1.trans hr) (by intro s hs; cases hs) ?_
+                  (by intro tu htu; cases htu)
+                intro _
+                cases hsys : u.system with
+                | none =>
+                  have := (hnone hsys).2
+                  rw [this]
+                  have := hsame rfl
+                  rw [hsys] at this; exact this
+                | some s =>
+                  simp only [Option.getD_some]
+                  rw [← htpq]; exact hlist s hsys
 
 end Cook
